@@ -49,8 +49,9 @@ static int vid_get(const LatLng *g) {
 }
 
 /* signed spherical area of a loop (fan around the normalised mean of its vertices): positive when counter-clockwise */
+static L3 g_fanref; static int g_have_fanref = 0;      /* set per cell set by lng_gap() */
 static long double loop_area(const L3 *v, int n) {
-    L3 m = {0, 0, 0}; for (int i = 0; i < n; i++) m = l3_add(m, v[i]); m = l3_unit(m);
+    L3 m = {0, 0, 0}; if (g_have_fanref) m = g_fanref; else { for (int i = 0; i < n; i++) m = l3_add(m, v[i]); m = l3_unit(m); }
     long double s = 0;
     for (int i = 0; i < n; i++) { L3 a = v[i], b = v[(i + 1) % n]; long double det = l3_dot(m, l3_cross(a, b)); long double den = 1 + l3_dot(m, a) + l3_dot(a, b) + l3_dot(b, m); s += 2 * atan2l(det, den); }
     return s;
@@ -113,12 +114,18 @@ static int lng_gap(const H3Index *set, int n) {
         double lo = l[(bi + 1) % cb.numVerts], hi = l[bi];
         if (lo <= hi) { if (lo <= 0 && hi >= 0) g_cov0 = 1; } else { g_covpi = 1; if (lo <= 0 || hi >= 0) g_cov0 = 1; }
         if (lo <= hi) { iv[m][0] = lo; iv[m][1] = hi; m++; } else { iv[m][0] = lo; iv[m][1] = M_PI; m++; iv[m][0] = -M_PI; iv[m][1] = hi; m++; } }
-    if (!m) { free(iv); return 1; }
+    if (!m) { free(iv); g_have_fanref = 0; return 1; }
     qsort(iv, m, sizeof(double[2]), cmp_dd);
-    int gap = iv[0][0] > -M_PI + 1e-9; double reach = iv[0][1];
-    for (int i = 1; i < m && !gap; i++) { if (iv[i][0] > reach + 1e-9) gap = 1; if (iv[i][1] > reach) reach = iv[i][1]; }
-    if (reach < M_PI - 1e-9) gap = 1;
-    free(iv); return gap;
+    /* the widest free arc of longitudes (cyclic) and its middle */
+    double reach = iv[0][1], best = 0, mid = 0;
+    for (int i = 1; i < m; i++) { if (iv[i][0] > reach && iv[i][0] - reach > best) { best = iv[i][0] - reach; mid = (iv[i][0] + reach) / 2; } if (iv[i][1] > reach) reach = iv[i][1]; }
+    { double wrapgap = (iv[0][0] + 2 * M_PI) - reach; if (wrapgap > best) { best = wrapgap; mid = reach + wrapgap / 2; if (mid > M_PI) mid -= 2 * M_PI; } }
+    free(iv);
+    if (best > 1e-9) { /* reference of the area fans: the point of the equator opposite the middle of the free arc. Its antipode lies on a meridian no cell
+                          touches, so it is outside every polygon and every hole, and the fan from the reference measures, for each loop, the side
+                          that does not contain that antipode: the polygon side of an outer loop, the inside of a hole */
+        g_fanref = (L3){-cosl((long double)mid), -sinl((long double)mid), 0}; g_have_fanref = 1; return 1; }
+    g_have_fanref = 0; return 0;
 }
 static int has_pole_cell(const H3Index *set, int n) {
     int res = -1; for (int i = 0; i < n; i++) if (isValidCell(set[i])) { res = getResolution(set[i]); break; } if (res < 0) return 0;
@@ -162,6 +169,7 @@ static void run_set(const H3Index *set, int n, const char *kind, int variant) {
         vid_reset(m * 10 + nv + 16);
         int dom = 1; long double maxlat = 0; L3 mean = {0, 0, 0};
         fprintf(vt_out, "{\"e\":\"lmp\",\"kind\":\"%s\",\"variant\":%d,\"rc\":%u,\"res\":%d,\"cells\":", kind, variant, r, m ? getResolution(in[0]) : -1); vt_words(in, m);
+        int gap = lng_gap(in, m);     /* also fixes the reference point of the area fans */
         long double *ca = malloc(sizeof(long double) * (m + 1)); long double tot = 0; int okc = 0;
         fputs(",\"cb\":[", vt_out);
         for (int i = 0; i < m; i++) { CellBoundary cb; memset(&cb, 0, sizeof cb); ca[i] = 0; fputs(i ? ",[" : "[", vt_out);
@@ -175,7 +183,6 @@ static void run_set(const H3Index *set, int n, const char *kind, int variant) {
          * unambiguous for the projection, it leaves some meridian free (does not wrap around the globe) and covers less than
          * 0.9 of a hemisphere */
         (void)maxang;
-        int gap = lng_gap(in, m);
         if (maxlat > 1.45L || okc == 0 || tot > 0.9L * 2 * M_PI || !gap || has_pole_cell(in, m)) dom = 0;
         long double unit = okc ? tot / okc / 10000.0L : 1;
         fputs(",\"ca\":[", vt_out); for (int i = 0; i < m; i++) fprintf(vt_out, "%s%ld", i ? "," : "", (long)llroundl(ca[i] / unit)); fputc(']', vt_out);
